@@ -28,14 +28,16 @@ def Attr.decl (a : Attr) : AttrDecl :=
   { name := a.name, ty := a.ty, kind := a.kind, dflt := a.declValue, override := a.override,
     final := if a.final then some true else none }
 
-/-- objectType.initHash: `a.Kind() == constant && px.Equals(a.Type(), px.Generalize(a.Value().PType()), nil)`.
-    (`Generalize` of the type of undef is `Undef`, which is no declared type of the alphabet.) -/
+/-- objectType.initHash: `a.Kind() == constant && px.Equals(a.Type(), px.Generalize(a.Value().PType()), nil)`
+    (an array value is no constant of the driver's universe: its inferred type is C04's business) -/
 def Attr.constLike (a : Attr) : Bool :=
   a.kind == .constant &&
     (match a.value with
      | some (.int _) => a.ty == .int
      | some (.str _) => a.ty == .str
      | some (.bool _) => a.ty == .bool
+     | some (.float _) => a.ty == .float
+     | some .undef => a.ty == .undefT
      | _ => false)
 
 /-- objectType.initHash of a resolved level (`parent` = the number of the parent definition) -/
